@@ -58,18 +58,17 @@ Qed.
 Lemma choose_id_fresh : forall c seg_id i, choose_id true c seg_id = BRet i -> ~ In i (ids c).
 Proof.
   intros c seg_id i H. unfold choose_id in H. destruct seg_id as [z|].
-  - destruct (Z.eqb z 0).
-    + inversion H. apply auto_id_fresh.
-    + simpl in H. destruct (memZ z (ids c)) eqn:Hm; [discriminate|].
-      inversion H; subst. apply memZ_false_iff. exact Hm.
+  - destruct (memZ z (ids c)) eqn:Hm; [discriminate|].
+    inversion H; subst. apply memZ_false_iff. exact Hm.
   - inversion H. apply auto_id_fresh.
 Qed.
 
-Theorem explicit_id_in_use_refused : forall c z, z <> 0%Z -> In z (ids c) -> choose_id true c (Some z) = BErr BDupId.
-Proof.
-  intros c z Hz Hin. unfold choose_id. apply Z.eqb_neq in Hz. rewrite Hz. simpl.
-  apply memZ_iff in Hin. rewrite Hin. reflexivity.
-Qed.
+Theorem explicit_id_in_use_refused : forall c z, In z (ids c) -> choose_id true c (Some z) = BErr BDupId.
+Proof. intros c z Hin. unfold choose_id. apply memZ_iff in Hin. rewrite Hin. reflexivity. Qed.
+
+(* ... and one that is free is honoured, 0 included *)
+Theorem explicit_id_free_honoured : forall c z, ~ In z (ids c) -> choose_id true c (Some z) = BRet z.
+Proof. intros c z Hin. unfold choose_id. apply memZ_false_iff in Hin. rewrite Hin. reflexivity. Qed.
 
 Lemma parent_of_in : forall c parent frac p f, parent_of c parent frac = BRet (Some (p, f)) -> In p (ids c).
 Proof.
